@@ -200,6 +200,35 @@ def selects_by(A, pat_a, pat_b):
     return any(has_eq_between(x, pat_a, pat_b) for e in A.events if e.kind in ("switch", "invoke") for x in e.vals)
 
 
+def farm_enumeration_bound(chk, A, lab):
+    """rewards / penalties must consider every farm of the LP token: the bound on the farms read from storage derives from
+    the configured maximum or the hard cap, never from the pagination default alone"""
+    takes = [e for e in A.calls(r"Iterator::take$") if all_origins(vfield(vfield(A.d(e.extra["dargs"][0]), "[*]"), "1")) == {"Store(FARMS)"}
+             or "Store(FARMS)" in all_origins(vfield(A.d(e.extra["dargs"][0]), "[*]"))]
+    ok = any(e.extra.get("item") == "FARMS" for e in A.reads())   # anchor; no bound at all means every farm is read
+    seen = []
+    for e in takes:
+        o = {x for x in all_origins(e.extra["dargs"][1])}
+        seen.append(sorted(o))
+        ok = ok and ("Store(CONFIG).max_concurrent_farms" in o or o == {"Const(farm_manager::state::MAX_FARMS_LIMIT)"} or o == {"Const(100_u32)"})
+    chk.expect(ok, "PROV-farm-enumeration-bound", lab, "the number of farms considered is bounded by the configured maximum / hard cap",
+               "farms are enumerated with bound %s (the pagination default silently drops farms beyond it)" % seen, where(takes[0]) if takes else A.entry)
+
+
+def no_truncation(chk, A, elem_pat, lab, rule):
+    """no truncating / filtering adaptor sits between a request's vector and the loop that processes it"""
+    bad = [e for e in A.calls(r"Iterator::(take|skip|step_by|take_while|skip_while|filter|filter_map|rev|nth)$")
+           if any(re.search(elem_pat, o) for o in all_origins(vfield(A.d(e.extra["dargs"][0]), "[*]")))]
+    chk.expect(not bad, rule, lab, "every element is processed, in order", "the processed sequence goes through `%s`" % (bad[0].name.rsplit("::", 1)[-1] if bad else ""),
+               where(bad[0]) if bad else "")
+
+
+def positions(v):
+    """constant element positions a value was read at (`x[0]`, `x[1]`): set of constant texts, empty when not index-read"""
+    t = v.fields.get("#may:idx")
+    return {o for (o, ops) in t.atoms} if t is not None else set()
+
+
 def opmap(v, cond=None):
     """origin -> union of operator classes over all atoms of v (flattened)."""
     m = {}
